@@ -1513,8 +1513,9 @@ open_common(kdump_ctx_t *ctx)
 	      sizeof(struct load_segment), seg_phys_cmp);
 
 	edp->num_load_vsorted = edp->num_load_segments;
-	memcpy(edp->load_vsorted, edp->load_segments,
-	       edp->num_load_vsorted * sizeof(struct load_segment));
+	if (edp->num_load_vsorted)
+		memcpy(edp->load_vsorted, edp->load_segments,
+		       edp->num_load_vsorted * sizeof(struct load_segment));
 	qsort(edp->load_vsorted, edp->num_load_segments,
 	      sizeof(struct load_segment), seg_virt_cmp);
 
